@@ -252,14 +252,32 @@ def build(recipe, repo):
             elif k == 'unit': g.unit_type = op[1]
             elif k == 'block_order': g.block_order = op[1]
             elif k == 'block_order_seq':
+                # only VALID assignments: 'dmplex' is refused (exception) for a mesh with a column of more than 4 nodes, and
+                # the refused setter leaves block_name_list truncated -- a refused call is not a configuration of the geometry
                 for bo in op[1]:
+                    if bo == 'dmplex' and not all(c.num_nodes in (3, 4) for c in g.columnlist): continue
                     try: g.block_order = bo
-                    except Exception: g.block_order = None          # e.g. dmplex with a 5-sided column
+                    except Exception:
+                        g.block_order = None
+                        g.setup_block_name_index(); g.setup_block_connection_name_index()
             elif k == 'header':
                 g.atmosphere_volume, g.atmosphere_connection, g.permeability_angle = op[1]['vol'], op[1]['con'], op[1]['angle']
         except Exception:
-            if k in ('block_order',): g.block_order = None     # e.g. dmplex with a 5-sided column
+            if k in ('block_order',):
+                g.block_order = None     # e.g. dmplex with a 5-sided column
+                touched = True           # the refused setter left the name lists truncated: rebuild them
             continue
+    # two decimals cannot tell on which side of a layer boundary a surface lies when the two differ by less than the
+    # printed precision (refine_layers recomputes the bottoms: 985.5999999999999 under a surface left at 985.6): such a
+    # geometry is outside cmp_ok / sep_ok (NameLists.v, Margin.v); put every non-default surface that close to a
+    # boundary ON the boundary -- whatever ops came after the 'surface' op
+    if recipe.get('ops') and g.num_layers > 0:
+        bots = [l.bottom for l in g.layerlist]
+        for c in g.columnlist:
+            if c.default_surface: continue
+            for b in bots:
+                if c.surface != b and abs(c.surface - b) < 0.02:
+                    c.surface = b; g.set_column_num_layers(c); touched = True
     if touched:
         g.setup_block_name_index(); g.setup_block_connection_name_index()
     return g
